@@ -199,12 +199,15 @@ def matchDigitsLU (s : List Char) : Bool :=
   let rest := s.dropWhile isHexDigitCI
   decide (rest.length < s.length) && rest.all isLU
 
-def matchIntLiteral (s : List Char) : Bool :=
-  let s := match s with | '-' :: t => t | _ => s
+/-- `0?x?[0-9a-f]+[lu]*$` on what follows the optional `-`. -/
+def matchAfterSign (s : List Char) : Bool :=
   -- choices for "0?x?": take none / "0" / "x" / "0x"
   matchDigitsLU s ||
   (match s with | c :: t => (c == '0' && matchDigitsLU t) || ((c == 'x' || c == 'X') && matchDigitsLU t) | [] => false) ||
   (match s with | c :: d :: t => c == '0' && (d == 'x' || d == 'X') && matchDigitsLU t | _ => false)
+
+def matchIntLiteral (s : List Char) : Bool :=
+  matchAfterSign (match s with | '-' :: t => t | _ => s)
 
 /-- Python `int(s, 0)` for the strings `_add_integer_constant` builds (lower-case, no sign):
 `0x…`, `0o…`, `0b…`, `0`/`00…0`, or a decimal without leading zero. -/
@@ -216,15 +219,23 @@ def pyIntBase0 (s : List Char) : Option Nat :=
   | '0' :: rest => if rest.all (· == '0') then some 0 else none     -- "0", "00": zero; "012": ValueError
   | _ => pyInt 10 s
 
+/-- `int_str.lower().rstrip("ul")`. -/
+def lowerStripUL (s : List Char) : List Char :=
+  ((s.map lowerChar).reverse.dropWhile (fun c => c == 'u' || c == 'l')).reverse
+
+/-- `"010"` is not valid octal for Python 3's `int(s, 0)`: rewrite to `"0o10"`
+(`startswith("0") and != "0" and not startswith("0x")`). -/
+def octalRewrite (s : List Char) : List Char :=
+  match s with
+  | '0' :: c :: rest => if c = 'x' then s else '0' :: 'o' :: c :: rest
+  | _ => s
+
 /-- `_add_integer_constant(name, int_str)`: the value bound to the name, or the error. -/
 def addIntegerConstant (intStr : List Char) : Except Err Int :=
-  let s := (intStr.map lowerChar).reverse.dropWhile (fun c => c == 'u' || c == 'l') |>.reverse
+  let s := lowerStripUL intStr
   let neg := s.head? = some '-'
   let s := if neg then s.drop 1 else s
-  let s := match s with
-    | '0' :: c :: rest => if c = 'x' then s else '0' :: 'o' :: c :: rest      -- "010" -> "0o10"
-    | _ => s
-  match pyIntBase0 s with
+  match pyIntBase0 (octalRewrite s) with
   | some v => .ok (if neg then -(v : Int) else v)
   | none => .error .cdef
 
